@@ -288,8 +288,16 @@ fn func_val(f: &Function) -> String {
 impl Coll for Funcs {
     fn add(&mut self, v: u32) -> (usize, bool) {
         let mut b = FunctionBuilder::new(&mut self.m.types, &[], &[]);
+        // odd values get a name, even ones stay anonymous
+        if v % 2 == 1 {
+            b.name(format!("n{}", v));
+        }
         b.func_body().i32_const(v as i32).drop();
         issue!(self, b.finish(vec![], &mut self.m.funcs))
+    }
+    fn find(&self, v: u32) -> Option<Option<usize>> {
+        let name = if v % 2 == 1 { format!("n{}", v) } else { String::new() };
+        Some(self.m.funcs.by_name(&name).map(|id| self.ids.iter().position(|x| *x == id).unwrap_or(usize::MAX)))
     }
     fn del(&mut self, k: usize) { self.m.funcs.delete(self.ids[k]); }
     fn get(&self, k: usize) -> Option<String> {
